@@ -81,7 +81,7 @@ pub mod c19 {
         }
     }
 
-    /// image data of the requested kind for a w x h image; `len_mode`: 0 exact, 1 short, 2 long, 3 empty,
+    /// image data of the requested kind for a w x h image; `len_mode`: 0 exact, 1 short, 2 long, 3 empty, 5 long by whole lines,
     /// 4 hostile (for the compressed kinds: C08's streams with runs placed at line and buffer edges)
     pub fn image_data(r: &mut Rng, w: usize, h: usize, bpp: u16, compress: bool, len_mode: u64) -> Vec<u8> {
         if len_mode == 4 && compress && w > 0 && h > 0 {
@@ -109,6 +109,13 @@ pub mod c19 {
             }
             2 => d.extend_from_slice(&r.bytes(5)),
             3 => d.clear(),
+            5 => {
+                // surplus of one or more whole scan lines, sometimes plus a few bytes
+                let line = w * (bpp as usize / 8).max(1);
+                let n = line * r.range(1, 3) as usize + if r.chance(1, 2) { 0 } else { r.range(1, 7) as usize };
+                let extra = r.bytes(n);
+                d.extend_from_slice(&extra);
+            }
             _ => {}
         }
         d
@@ -118,13 +125,15 @@ pub mod c19 {
     /// conformant encoding of a w x h picture (short, surplus bytes, hostile streams)
     pub fn reference_image(c: &Case) -> Option<Vec<u32>> {
         let (w, h) = (c.img_w as usize, c.img_h as usize);
-        if w == 0 || h == 0 || !c.conformant {
+        if w == 0 || h == 0 || (!c.conformant && c.compress) {
             return None;
         }
         let px = |b: &[u8]| -> Vec<u32> { b.chunks(4).map(|x| u32::from_le_bytes([x[0], x[1], x[2], x[3]])).collect() };
         match (c.bpp, c.compress) {
+            // uncompressed: the picture is the first w*h pixels of the stream (rows bottom-up); bytes after it are not
+            // part of it, whatever their number (what the client under test and every other RDP client does)
             (32, false) => {
-                if c.data.len() != w * h * 4 {
+                if c.data.len() < w * h * 4 {
                     return None;
                 }
                 let mut out = Vec::with_capacity(w * h * 4);
@@ -135,7 +144,7 @@ pub mod c19 {
             }
             (32, true) => refrle::decode_planar(&c.data, w, h).ok().filter(|v| v.len() == w * h * 4).map(|v| px(&v)),
             (16, false) => {
-                if c.data.len() != w * h * 2 {
+                if c.data.len() < w * h * 2 {
                     return None;
                 }
                 let mut img: Vec<u16> = Vec::with_capacity(w * h);
@@ -291,7 +300,7 @@ pub mod c19 {
                     1 => ((right as i32 - left as i32 + 1).max(0) as u16 + r.below(3) as u16, (bottom as i32 - top as i32 + 1).max(0) as u16 + r.below(2) as u16),
                     _ => (r.below(10) as u16, r.below(10) as u16),
                 };
-                let len_mode = if r.chance(3, 4) { 0 } else { r.range(1, 4) };
+                let len_mode = if r.chance(3, 4) { 0 } else { r.range(1, 5) };
                 let data = image_data(&mut r, iw as usize, ih as usize, bpp, compress, len_mode);
                 Case { win_w, win_h, left, top, right, bottom, img_w: iw, img_h: ih, bpp, compress, data, conformant: len_mode == 0, class: "small-exhaustive-geometry" }
             }
@@ -343,7 +352,7 @@ pub mod c19 {
                 };
                 let (iw, ih) = (iw.min(1400), ih.min(100));
                 let (bpp, compress) = MODES[r.below(4) as usize];
-                let len_mode = if r.chance(4, 6) { 0 } else { r.range(1, 4) };
+                let len_mode = if r.chance(4, 6) { 0 } else { r.range(1, 5) };
                 let data = image_data(&mut r, iw as usize, ih as usize, bpp, compress, len_mode);
                 Case { win_w, win_h, left, top, right, bottom, img_w: iw, img_h: ih, bpp, compress, data, conformant: len_mode == 0, class: "large-random-geometry" }
             }
@@ -562,13 +571,15 @@ pub mod c20 {
         /// the end event travels in the same TLS record as the PDUs just before it
         pub end_in_same_record: bool,
         pub big: u8,
+        /// the server stays completely silent for this long in the middle of the session (0: no such pause)
+        pub silence_ms: u64,
         pub seed: u64,
     }
 
     impl Scenario {
         pub fn to_json(&self) -> Value {
             json!({"packing": format!("{:?}", self.packing), "n_pdus": self.n_pdus, "end": format!("{:?}", self.end), "point": format!("{:?}", self.point), "step": format!("{:?}", self.step),
-                   "tls12": self.tls12, "linger": self.linger, "input_writer": self.input_writer, "pauses": self.pauses, "end_in_same_record": self.end_in_same_record, "big": self.big, "seed": self.seed, "gen": self.gen_idx()})
+                   "tls12": self.tls12, "linger": self.linger, "input_writer": self.input_writer, "pauses": self.pauses, "end_in_same_record": self.end_in_same_record, "big": self.big, "silence_ms": self.silence_ms, "seed": self.seed, "gen": self.gen_idx()})
         }
         fn gen_idx(&self) -> Value {
             Value::Null
@@ -967,6 +978,10 @@ pub mod c20 {
                 pause(&mut rng, true);
             }
         }
+        if sc.silence_ms > 0 {
+            std::thread::sleep(Duration::from_millis(sc.silence_ms));
+            trace.push(format!("silence-{}ms", sc.silence_ms));
+        }
         // the end event
         let mut ended = false;
         match sc.end {
@@ -1154,7 +1169,26 @@ pub mod c20 {
                 let point = points[(k % 4) as usize];
                 k /= 4;
                 let step = steps[(k % 3) as usize];
-                Scenario { packing, n_pdus: 6, end, point, step, tls12: r.chance(2, 3), linger: r.chance(1, 2), input_writer: r.chance(1, 2), pauses: r.chance(1, 2), end_in_same_record: r.chance(1, 5), big: r.below(3) as u8, seed: seed ^ idx }
+                Scenario { packing, n_pdus: 6, end, point, step, tls12: r.chance(2, 3), linger: r.chance(1, 2), input_writer: r.chance(1, 2), pauses: r.chance(1, 2), end_in_same_record: r.chance(1, 5), big: r.below(3) as u8, silence_ms: 0, seed: seed ^ idx }
+            }
+            2 => {
+                // a live session in which the server says nothing for a while, then goes on
+                let silences = [6_000u64, 11_000, 31_000, 61_000];
+                Scenario {
+                    packing: if idx % 2 == 0 { Packing::OnePerRecord } else { Packing::SplitAcrossRecords(2) },
+                    n_pdus: 6,
+                    end: End::None,
+                    point: Point::BetweenPdus,
+                    step: Step::InSelect,
+                    tls12: idx % 3 == 0,
+                    linger: false,
+                    input_writer: idx % 2 == 1,
+                    pauses: false,
+                    end_in_same_record: false,
+                    big: (idx % 3) as u8,
+                    silence_ms: silences[(idx as usize / 3) % silences.len()],
+                    seed: seed ^ idx ^ 0x5151,
+                }
             }
             _ => Scenario {
                 packing: packings[r.below(packings.len() as u64) as usize].clone(),
@@ -1168,6 +1202,7 @@ pub mod c20 {
                 pauses: true,
                 end_in_same_record: r.chance(1, 5),
                 big: r.below(3) as u8,
+                silence_ms: 0,
                 seed: seed.wrapping_mul(31) ^ idx,
             },
         }
@@ -1213,6 +1248,19 @@ pub mod c20 {
                 judge(&sc, 0, idx, seed, rep);
             });
             total.count("placed_scenarios", n);
+            total.merge(rep);
+        }
+        if cfg.wants(2) {
+            // quick: three sessions with 6 s of silence (run side by side); thorough: 6, 11, 31 and 61 s
+            let n: u64 = if cfg.quick() { 3 } else { 12 };
+            let mut c3 = cfg.clone();
+            c3.threads = 12;
+            let rep = par_run(&c3, n, 1, |idx, rep| {
+                mon::begin_case(20, 2, idx, seed);
+                let sc = make_scenario(2, idx, seed);
+                judge(&sc, 2, idx, seed, rep);
+            });
+            total.count("long_silence_scenarios", n);
             total.merge(rep);
         }
         if cfg.wants(1) {
